@@ -133,9 +133,9 @@ impl FieldElement for BaseElement {
 
     #[inline]
     fn double(self) -> Self {
-        let ret = (self.0 as u128) << 1;
-        let (result, over) = (ret as u64, (ret >> 64) as u64);
-        Self(result.wrapping_sub(M * over))
+        // 2 * x can be in [M, 2^64) without overflowing 64 bits; field addition reduces in
+        // both cases
+        self + self
     }
 
     #[inline]
